@@ -3,7 +3,7 @@
 sources and the check of its own property is run on the copy (static only, nothing is built or executed).
 Prints one line per seed; exit 1 if a seed that was detected before is no longer detected.
 
-  python3 tools/seedregress.py [--update]      (--update rewrites detected_by/lines in meta.json)
+  python3 tools/seedregress.py [--update] [seed ...]      (--update rewrites detected_by/lines in meta.json)
 """
 import sys, os, json, glob, subprocess, shutil, tempfile
 from concurrent.futures import ThreadPoolExecutor
@@ -33,6 +33,9 @@ def one(d):
 def main():
     dirs = sorted(glob.glob(os.path.join(HERE, 'seeded', '*')))
     dirs = [d for d in dirs if os.path.exists(os.path.join(d, 'meta.json'))]
+    only = [a for a in sys.argv[1:] if not a.startswith('--')]          # optional seed names: regress these only
+    if only:
+        dirs = [d for d in dirs if os.path.basename(d) in only]
     bad = 0
     with ThreadPoolExecutor(8) as ex:
         for d, prop, code, lines in ex.map(one, dirs):
